@@ -83,6 +83,7 @@ class Gen:
         elif r < 0.32: va = 'rest'; plist.append('rest...')
         self.arity[n] = (np, va is not None)
         toks = self.body_tokens(params + ([va] if va else []), va)
+        if va == 'rest' and rng.random() < 0.6: toks += [rng.choice(['k', 'p' if params else 'x', '"s"']), ', ## rest']; self.features.add('gnu-comma')      # GNU comma paste on a NAMED variadic parameter
         if rng.random() < 0.2: toks.append(n)
         return '#define %s(%s) %s' % (n, ', '.join(plist) if rng.random() < 0.8 else ','.join(plist), ' '.join(toks))
 
